@@ -354,12 +354,22 @@ def _block(ctx, rf, lo, hi, env, which, depth, nested=False):
             inner_env[var] = ("val", ("elem", var, source))
             _block(ctx, rf, k + 1, c, inner_env, which, depth, nested=True)
             for lname, items in fresh.items():
-                if items:
+                if any(x[0] not in ("Break", "SkipRest") for x in items):
                     env[lname][1].append(("For", var, source, items))
             continue
         if kind == "if":
             k, c = extra
             cond = re.sub(r"\s+", " ", src[a + 2:k].strip())
+            body_txt = re.sub(r"\s+", "", src[k + 1:c])
+            if nested and body_txt in ("break;", "continue;"):
+                # an early exit from the enclosing `for`: everything pushed later in this iteration (and, for `break`,
+                # in every later iteration) is skipped when the condition holds
+                condt = _cond(env, cond, dict(env))
+                marker = ("Break" if body_txt == "break;" else "SkipRest", condt)
+                for lname, v in env.items():
+                    if isinstance(v, tuple) and v and v[0] == "list":
+                        v[1].append(marker)
+                continue
             inner_env, fresh = enter(env)
             condt = _cond(env, cond, inner_env)
             _block(ctx, rf, k + 1, c, inner_env, which, depth, nested=True)
@@ -454,10 +464,11 @@ def _cond(env, cond, inner_env):
     parts = [p.strip() for p in cond.split("&&")]
     out = []
     for p in parts:
-        a = _call(p, r"compare_bounds_le")
+        neg = p.startswith("!")
+        a = _call(p[1:].strip() if neg else p, r"compare_bounds_le")
         if a is None:
             raise Unsupported("condition not understood: " + cond[:80])
-        out.append(("cble", _sym(env, a[0]), _sym(env, a[1])))
+        out.append(("ncble" if neg else "cble", _sym(env, a[0]), _sym(env, a[1])))
     return ("and", out)
 
 
